@@ -203,8 +203,24 @@ for _n in GET_WIDTH:
 for _n in PUT_WIDTH:
     BUF_MODELS["bytes::BufMut::" + _n] = m_put
     BUF_MODELS["bytes::buf::BufMut::" + _n] = m_put
+def m_bytes_from(I, st, t, args, site, depth):
+    v = tform(deref_arg(I, st, args[0]))
+    if isinstance(v, tuple) and v and v[0] in ("newbuf", "bufslice", "buftail"):
+        return [(st, args[0])]
+    return None
+
+
 BUF_MODELS.update(
     {
+        "std::vec::Vec::with_capacity": m_new,
+        "alloc::vec::Vec::with_capacity": m_new,
+        "std::vec::Vec::new": m_new,
+        "alloc::vec::Vec::new": m_new,
+        "std::vec::Vec::extend_from_slice": m_put_slice,
+        "alloc::vec::Vec::extend_from_slice": m_put_slice,
+        "<bytes::Bytes as std::convert::From>::from": m_bytes_from,
+        "<bytes::Bytes as std::convert::From<std::vec::Vec<u8>>>::from": m_bytes_from,
+        "<bytes::Bytes as std::convert::From<bytes::BytesMut>>::from": m_bytes_from,
         "bytes::BytesMut::split_to": m_split_to,
         "bytes::Buf::advance": m_advance,
         "bytes::buf::Buf::advance": m_advance,
